@@ -72,6 +72,8 @@ def generate(rng, tier):
             ops.append({"op": "from_obs", "kind": rng.choice(["chi2", "gaussian", "gaussian"]), "n": n, "n_std": rng.choice([n, n, n + 2]),
                         "with_min": rng.random() < 0.5, "share": rng.random() < 0.6, "tseed": rng.randrange(1 << 30),
                         "shipped": rng.random() < 0.12, "observe": rng.random() < 0.6})
+            if ops[-1]["kind"] == "gaussian" and not ops[-1]["shipped"] and rng.random() < 0.35:
+                ops[-1]["tmode"] = "low"
         elif r < 0.66:
             # a call the library must reject (missing deviation, unknown noise type, unequal tables with index sharing)
             ops.append({"op": "reject_noise", "how": rng.choice(["no_std", "bad_type", "unequal_tables"]), "x_mean": rng.choice([5.0, 10.0])})
@@ -172,7 +174,11 @@ def _close(a, b, ulps=4, rel=0.0):
 def tables(op, scale=1.0):
     r = _REAL_DEFAULT_RNG([op["tseed"], 4])
     n, ns = op["n"], op["n_std"] if not op["share"] else op["n"]
-    means = np.sort(r.uniform(5.0, 50.0, size=n)) + np.arange(n) * 1e-3
+    if op.get("tmode") == "low":
+        # tables of (nearly) normalised data: zero / negative means, deviations that exceed the mean in some rows
+        means = np.sort(r.uniform(-3.0, 6.0, size=n)) + np.arange(n) * 1e-3
+    else:
+        means = np.sort(r.uniform(5.0, 50.0, size=n)) + np.arange(n) * 1e-3
     stds = np.sort(r.uniform(0.5, 4.0, size=ns)) + np.arange(ns) * 1e-3
     mins = np.sort(r.uniform(1.0, 6.0, size=ns if not op["share"] else n)) + np.arange(ns if not op["share"] else n) * 1e-3
     return means, stds, mins
